@@ -473,9 +473,28 @@ func runC20(c *core.Case) *core.Result {
 	select {
 	case <-joined:
 	case <-time.After(60 * time.Second):
+		// logical evidence of a deadlock: no application goroutine completes a single call any
+		// more (three samples one second apart), and goroutines wait for a mutex; goroutines
+		// that still make progress on a slow machine are inconclusive
+		progress := func() int64 {
+			var n int64
+			for i := range completed {
+				n += atomic.LoadInt64(&completed[i])
+			}
+			return n
+		}
+		p0 := progress()
+		moving := false
+		for t := 0; t < 3 && !moving; t++ {
+			time.Sleep(time.Second)
+			moving = progress() != p0
+		}
 		dump := bed.Stacks()
 		close(done)
 		c.Poisoned()
+		if moving {
+			return c.Inconclusive("application goroutines did not finish within 60 s but still complete calls")
+		}
 		if strings.Contains(dump, "sync.(*RWMutex).Lock") || strings.Contains(dump, "sync.(*Mutex).Lock") {
 			return c.Violation("deadlock:"+typ, "application goroutines did not finish within 60 s; goroutines are blocked on the datatype's mutex:\n%s", clipDump(dump))
 		}
